@@ -6,7 +6,7 @@ Import-free.
 -/
 import SuccinctlyVerif.Spec.YamlTree
 import SuccinctlyVerif.Spec.YamlLoad
-namespace SV.Yaml
+namespace SV.YamlRef
 
 /-! ## Tree equality (decidable, executable) -/
 
@@ -368,4 +368,4 @@ def readJson (s : Str) : Option Tree :=
   | some (v, r) => if (jsWs r).isEmpty then some v else none
   | none => none
 
-end SV.Yaml
+end SV.YamlRef
